@@ -102,6 +102,10 @@ func (m *MessageCertificateRequest) Unmarshal(data []byte) error { //nolint:cycl
 	if (offset + signatureHashAlgorithmsLength) > len(data) {
 		return dtlserrors.ErrBufferTooSmall
 	}
+	if signatureHashAlgorithmsLength%2 != 0 {
+		// a list of 2-byte entries: an odd length would read past the list
+		return dtlserrors.ErrLengthMismatch
+	}
 
 	for i := 0; i < signatureHashAlgorithmsLength; i += 2 {
 		if len(data) < (offset + i + 2) {
